@@ -407,7 +407,7 @@ func (r *replayer) binFor(pkg string) (string, error) {
 	if b, ok := r.bins[pkg]; ok {
 		return b, r.errs[pkg]
 	}
-	_, real, err := overlayFor(r.cs.Files)
+	_, real, err := overlayFor(r.cs.Files, r.cs.ModelPkgs...)
 	if err != nil {
 		return "", err
 	}
